@@ -155,6 +155,7 @@ def c07(tier, seed):
         require_witnesses=[
             "client_run_with_called_contest",
             "client_run_with_stopped_contest",
+            "fully_reported_run_with_stopped_contest",
             "called_left_with_prediction_below_threshold",
             "called_right_upper_bound_overridden",
             "stop_list_pulled_lower_bound_below_zero",
@@ -192,6 +193,7 @@ def _job_bounds(arg):
         xs = [rnd.randint(-9, 9) for _ in range(B)]
         levels = sorted(rnd.sample([100, 500, 700, 800, 900, 950, 990], 3))
         try:
+            out.append(calls.known_part_record(rnd))
             out.append(calls.bounds_record(rnd.randint(-8, 8), xs, levels, rnd))
         except Exception as e:  # noqa: BLE001
             out.append({"kind": "raised", "B": B, "levels": levels, "exc": f"{type(e).__name__}: {str(e)[:200]}"})
@@ -230,6 +232,8 @@ def bootstrap_client_traces(run, tier, seed, cfg, n_quick=24, n_thorough=240):
             run.witness(f"B_{val['B']}")
             if val.get("stress"):
                 run.witness("run_with_extrapolating_units")
+            if val.get("fully_reported") and any(g["top"] and g["name"] in val["stop"] for g in val["groups"]):
+                run.witness("fully_reported_run_with_stopped_contest")
         else:
             run.violation("run_raised", {"clause": "run_raised", "exc": val["exc"]}, val)
     _validate_bootstrap(run, traces, cfg)
